@@ -113,7 +113,10 @@ def main():
             for mid, r in lst:
                 results[mid] = r
                 print(mid, r.get("status"), r.get("demo_with_change"), r.get("demo_without_change"), flush=True)
-    json.dump(results, open(os.path.join(OUT, "confirmation_log.json"), "w"), indent=1)
+    logp = os.path.join(OUT, "confirmation_log.json")
+    allres = json.load(open(logp)) if os.path.exists(logp) else {}
+    allres.update(results)
+    json.dump(allres, open(logp, "w"), indent=1, sort_keys=True)
     for wt in wts:
         subprocess.run(["git", "-C", "/repo", "worktree", "remove", "--force", wt])
 
